@@ -2,20 +2,17 @@
 (* The connection state machine of FzfServer over the request shapes: exhaustive checking.                     *)
 EXTENDS MC_ServerShapes
 
+CONSTANT MCSet          \* which request shapes: "few" | "small" | "all"
+
 -------------------------------------------------------------------------------
 (* EXHAUSTIVE CHECKING: every way of cutting the stream into reads, every point of closing it early *)
-VARIABLES si, key, env, upto, s, plain     \* si: index of the request shape; upto: atoms the client sends before it closes
-vars == <<si, key, env, upto, s, plain>>
-MCSet == IF "MC_SET" \in DOMAIN IOEnv THEN IOEnv.MC_SET ELSE "small"
+VARIABLES shape, key, env, W, dz, upto, s, plain
+(* shape: the request; W: its byte stream with tables; dz: the answer the whole request deserves (Respond);   *)
+(* upto: atoms the client sends before it closes; plain: no read boundary so far that could matter              *)
+vars == <<shape, key, env, W, dz, upto, s, plain>>
 MCShapes == IF MCSet = "all" THEN AllShapes
             ELSE IF MCSet = "small" THEN SmallShapes
             ELSE {sh \in SmallShapes : sh.tags.key \in {"absent", "exact", "prefix", "padded"} /\ sh.tags.cl \in {"ok", "plus1", "alpha"}}
-MCSeq == SetToSeq(MCShapes)
-MCW == [i \in 1..Len(MCSeq) |-> Prep(Wire(MCSeq[i].req))]               \* tables, computed once
-MCDeserved == [i \in 1..Len(MCSeq) |-> [k \in Keys |-> [e \in {"ok", "uiBusy", "chanFull"} |-> Respond(MCSeq[i].req, k, e)]]]
-shape == MCSeq[si]
-W == MCW[si]
-Deserved == MCDeserved[si][key][env]
 EnvsFor(sh) == IF sh.tags.m = "GET" THEN {"ok", "uiBusy"}
                ELSE IF sh.tags.body = "up" /\ sh.tags.cl = "ok" THEN {"ok", "chanFull"} ELSE {"ok"}
 
@@ -24,23 +21,25 @@ HeadLen(req) == Len(req.start) + 2 + Len(JoinLines(req.hdrs)) + (IF req.blank > 
 SafeCut(req, wire, p) == p >= Len(wire) \/ (p >= 2 /\ wire[p - 1] = CR /\ wire[p] = LF /\ p <= HeadLen(req))
                          \/ (req.blank > 0 /\ p >= HeadLen(req))
 
-MInit == /\ si \in 1..Len(MCSeq) /\ key \in Keys /\ env \in EnvsFor(MCSeq[si])
-         /\ upto = Len(MCW[si].a) /\ s = S0 /\ plain = TRUE
+MInit == /\ shape \in MCShapes /\ key \in Keys /\ env \in EnvsFor(shape)
+         /\ W = Prep(Wire(shape.req)) /\ upto = Len(W.a) /\ s = S0 /\ plain = TRUE
+         /\ dz = [here |-> Respond(shape.req, key, env), nokey |-> Respond(shape.req, "", "ok")]
 MArrive == /\ NeedsInput(W, s)
            /\ \E k \in 1..(upto - s.sent) :
                  /\ s' = [s EXCEPT !.sent = s.sent + k]
                  /\ plain' = (plain /\ SafeCut(shape.req, W.a, s.sent + k))
-           /\ UNCHANGED <<si, key, env, upto>>
+           /\ UNCHANGED <<shape, key, env, W, dz, upto>>
 MCloseEarly == /\ NeedsInput(W, s) /\ s.sent < upto
                /\ upto' = s.sent /\ plain' = FALSE
-               /\ UNCHANGED <<si, key, env, s>>
+               /\ UNCHANGED <<shape, key, env, W, dz, s>>
 MSeeEOF == /\ NeedsInput(W, s) /\ s.sent = upto
            /\ s' = [s EXCEPT !.eof = TRUE, !.waits = TRUE]
-           /\ UNCHANGED <<si, key, env, upto, plain>>
-MScan == /\ CanScan(W, s) /\ s' = Scan(W, s) /\ UNCHANGED <<si, key, env, upto, plain>>
-MFinish == /\ ~s.ans /\ s.sd /\ s' = Finish(W, s, key, env) /\ UNCHANGED <<si, key, env, upto, plain>>
+           /\ UNCHANGED <<shape, key, env, W, dz, upto, plain>>
+MScan == /\ CanScan(W, s) /\ s' = Scan(W, s) /\ UNCHANGED <<shape, key, env, W, dz, upto, plain>>
+MFinish == /\ ~s.ans /\ s.sd /\ s' = Finish(W, s, key, env) /\ UNCHANGED <<shape, key, env, W, dz, upto, plain>>
 MDone == s.ans /\ UNCHANGED vars
 MNext == MArrive \/ MCloseEarly \/ MSeeEOF \/ MScan \/ MFinish \/ MDone
+Deserved == dz.here
 
 TypeOK == /\ s.cons <= s.sent /\ s.sent <= upto /\ upto <= Len(W.a) /\ s.sec \in 0..2
           /\ s.ans => s.resp.st \in Statuses
@@ -53,7 +52,7 @@ BadMethodRefused == (s.ans /\ shape.tags.m = "BAD") => s.resp = R400
 (* C16: malformed, oversized, incomplete requests are rejected without side effects - under every framing: *)
 (* actions reach the channel only if the request as a whole deserves it, and then exactly its list          *)
 DeliveredOnlyAsDeserved == (s.ans /\ s.resp.dl # <<>>) => s.resp = Deserved
-MalformedRejected == (s.ans /\ MCDeserved[si][""]["ok"].st = 400) => (s.resp.st \in {400, 401} /\ s.resp.dl = <<>>)
+MalformedRejected == (s.ans /\ dz.nokey.st = 400) => (s.resp.st \in {400, 401} /\ s.resp.dl = <<>>)
 (* framing independence: reads that end at line ends / inside the body give the answer of the whole request *)
 FramingIndependent == (s.ans /\ plain) => s.resp = Deserved
 (* a cut elsewhere or an early close can only turn the answer into a refusal *)
